@@ -179,9 +179,34 @@ class SpecCache:
 # ---------------------------------------------------------------------------
 # stream construction
 # ---------------------------------------------------------------------------
+ALPHS = [b"0123456789", b"abcdefghijklmnopqrstuvwxyz", b'abcdefghij0123456789{}":, ', bytes(range(32, 127)),
+         bytes(range(256))]
+
+
+def records(desc):
+    """record-structured text: lines with a shared prefix of desc['pl'] octets (deterministic from desc['seed'])"""
+    import random
+    rng = random.Random(desc["seed"])
+    al = ALPHS[desc["alph"]]
+    pl, total, distinct = desc["pl"], desc["n"], desc["distinct"]
+    bl = max(desc["rl"] - pl, 1)
+    prefix = bytes(rng.choices(al, k=pl))
+    pool = [bytes(rng.choices(al, k=bl)) for _ in range(distinct)]
+    out, size = [], 0
+    while size < total:
+        if pool and rng.randrange(4):
+            b = bytearray(rng.choice(pool)); b[rng.randrange(bl)] = rng.choice(al); body = bytes(b)
+        else:
+            body = bytes(rng.choices(al, k=bl))
+        out.append(prefix + body + b"\n"); size += pl + bl + 1
+    return b"".join(out)[:total]
+
+
 def data_of(desc):
     c = desc["cls"]
     n = desc["n"]
+    if c == "records":
+        return records(desc)
     if c == "const":
         return bytes([desc["c"]]) * n
     if c == "periodic":
@@ -725,6 +750,13 @@ def run(ctx):
                               "with raw not beginning with GZIP_HEAD (|p|=%d, raw head %s)" % (len(p), short(rawd, 8)),
                               {"fn": "contract-compress", "data": desc, "no_failing_input_found": True,
                                "broken": "assumption zlib_ok (Z3-Z6) of props/C17.v"})
+            if c != rawd:
+                # the model's definition evaluated in Python (covers plaintexts that have no compact Coq form)
+                ctx.violation({"kind": "correspondence", "fn": "compress"},
+                              "compress(p) differs from zlib.compress(p)[2:-4] (|p|=%d: %s.. vs %s..)" % (
+                                  len(p), c[:4].hex(), rawd[:4].hex()),
+                              {"fn": "compress", "data": desc, "out_head": short(c, 16),
+                               "broken": "correspondence model/C17Zip.v:compress vs jwe_zips.compress"})
             if coq:
                 src = lcg_source(len(p)) if desc["cls"] == "lcg" else None
                 psp = specs.get(p, src)
@@ -1120,6 +1152,70 @@ def run(ctx):
             check_jwe(token, key, b"hello hello hello", None, "%s/compact/zip-allowed" % enc.name,
                       {"enc": enc.name, "ser": "compact", "data": {"cls": "lit", "hex": b"hello hello hello".hex(), "n": 17},
                        "how": "impl", "allowed": ["dir", enc.name, "DEF"]}, allowed=["dir", enc.name, "DEF"])
+        tick("G")
+        # ---- G2. the space of LEADING OCTETS of raw streams (directed): multi-block, record-structured
+        # plaintexts; the first octet of zlib's raw output is BFINAL | BTYPE<<1 | HLIT<<3 for a dynamic block,
+        # e.g. 9C = non-final dynamic block with HLIT=19 (longest matches 51..58 octets)
+        lead, lead2, hist = {}, {}, {}
+        target = set(impl_head) | set(ZHEAD)
+
+        def try_desc(d):
+            raw = zlib.compress(data_of(d))[2:-4]
+            hist[raw[0]] = hist.get(raw[0], 0) + 1
+            cap = 3 if raw[0] in target else 1
+            if raw[:2] not in lead2 and len(lead.get(raw[0], [])) < cap:
+                lead2[raw[:2]] = d
+                lead.setdefault(raw[0], []).append(d)
+
+        def rec_desc(pl):
+            return {"cls": "records", "seed": rng.randrange(1 << 30), "alph": rng.randrange(len(ALPHS)), "pl": pl,
+                    "rl": pl + rng.randrange(4, 80), "n": rng.randrange(100000, 250001),
+                    "distinct": rng.choice([0, 0, 4, 16, 64])}
+        for _ in range(ctx.scale(40, 300)):                 # directed at HLIT=19
+            if len(lead.get(0x9C, [])) >= 3:
+                break
+            try_desc(dict(rec_desc(rng.randrange(46, 57)), distinct=0))
+        for _ in range(ctx.scale(90, 1500)):                # sweep: prefix length 3..100, alphabets, record pools
+            try_desc(rec_desc(rng.randrange(3, 101)))
+        lead_stats = {"first_octets_seen": {"%02x" % k: v for k, v in sorted(hist.items())},
+                      "distinct_first_octets": len(hist), "distinct_first_two_octets_kept": len(lead2),
+                      "reached": {"%02x" % o: o in hist for o in sorted(target)}}
+        ctx.coverage["raw_leading_octets"] = lead_stats
+        for o in sorted(target):
+            if o not in hist:
+                ctx.notes.append("leading octet %02x of GZIP_HEAD was not reached by zlib's raw output in the bounded search%s" % (
+                    o, " (expected: 78 = non-final stored block with non-zero padding bits, which zlib never emits)" if o == 0x78 else ""))
+        kept = [d for o in sorted(lead) for d in lead[o]]
+        for d in kept:
+            bump("lead_roundtrip")
+            roundtrip(d, contract_ms=(LIMIT + 1,), contract_coq=False)
+        # the same plaintexts as FOREIGN raw streams (other levels give other second octets); all must be taken as raw
+        hot = [d for o in sorted(target) for d in lead.get(o, [])]
+        n9c = 0
+        for d in hot + kept[:ctx.scale(4, 40)]:
+            for lv in ((-1, 9, 4) if d in hot else (-1,)):
+                desc = {"data": d, "how": "obj", "level": lv, "wbits": -15, "strategy": 0}
+                s, _p = build_stream(desc, zipm)
+                n9c += s[:1] == b"\x9c"
+                bump("lead_foreign")
+                run_decompress(s, desc, coq=True, contract_ms=(LIMIT + 1,), contract_coq=False)
+        # hand-made raw streams whose first octet is 78 (non-final stored block, padding bits 01111) but not 78 9C
+        for sz in [1, 5, 0x9B, 0x9D, 0x19B, 300, 0x9C9B, 65535]:
+            d = {"cls": "periodic", "pat": pat.hex(), "n": sz + rng.randrange(1, 50)}
+            bump("lead_foreign")
+            run_decompress(*build_stream({"data": d, "how": "stored", "sizes": [sz], "pad": 15}, zipm)[:1],
+                           {"data": d, "how": "stored", "sizes": [sz], "pad": 15}, coq=True, contract_ms=(LIMIT + 1,))
+        lead_stats["foreign_raw_streams_beginning_9c"] = int(n9c)
+        # through complete JWEs: compact + one JSON serialization, two encs
+        two_encs = [e for e in encs if e.name in ("A128GCM", "A256CBC-HS512")] or encs[:2]
+        for d in (hot[:3] + kept[:1]):
+            p = data_of(d)
+            for enc in two_encs:
+                for ser in ("compact", "flattened"):
+                    token, key = jwe_encrypt(enc, ser, p)
+                    check_jwe(token, key, p, len(p), "%s/%s/leading-octet" % (enc.name, ser),
+                              {"enc": enc.name, "ser": ser, "data": d, "how": "impl"})
+        tick("G2")
         # the 64 MiB / 512 MiB expansion through a JWE (in-process; memory measured above)
         token, key = jwe_encrypt(encs[0], "compact", b"x", stream=huge_raw)
         check_jwe(token, key, None, zn, "%s/compact/huge" % encs[0].name,
